@@ -1,5 +1,6 @@
 """C03 -- Decompress rebuilds the packet from any well-formed SCHC packet."""
 from core import rng_for, mk, bits_of, L, R, randbits
+from core import mkmap, given_items
 from schc_run import Batch, case_decompress
 from schc_util import gen_rule, KINDS, n_rule, n_pdesc, ref_compress, ref_decompress
 from gens import gen_parsed, ALL_STACKS, no_compression_rule, synth_case, synth_pdesc, payload_variants
@@ -58,6 +59,15 @@ def run(rep, tier, seed):
         s = ref_compress(n_pdesc(pd), n_rule(rule))
         if s is not None:
             case_decompress(b, s, rule, None, klass='decompress:checksum-corner:' + stack, expect=bits_of(pd.raw), side=rnd.choice([L, R]))
+    # IP-in-IP tunnels: two IP headers before UDP, the same computed field id twice in one rule
+    from gens import gen_tunnel
+    for k in range(6 if tier == 'quick' else 40):
+        name, pkt, pd = gen_tunnel(rnd, k)
+        fds = [gen_rfd(rnd, f, 'comp' if str(getattr(f.id, 'value', f.id)) in COMPUTABLE else rnd.choice(['vs', 'ns', 'lsb']), _DI.BIDIRECTIONAL) for f in pd.fields]
+        rule = _RD(id=mk(randbits(rnd, rnd.randint(1, 8))), field_descriptors=fds)
+        s = ref_compress(n_pdesc(pd), n_rule(rule))
+        if s is not None:
+            case_decompress(b, s, rule, None, klass='decompress:' + name, expect=bits_of(pd.raw), side=rnd.choice([L, R]))
     for i in range(1500 if tier == 'quick' else 15000):
         rule, vals = synth_case(rnd)
         pl = payload_variants(rnd)
@@ -85,7 +95,7 @@ def run(rep, tier, seed):
                 fds = []
                 if pre:
                     fds.append(RuleFieldDescriptor('X:p', len(pre), 0, DI.BIDIRECTIONAL, Buffer(b'', 0), MO.IGNORE, CDA.VALUE_SENT))
-                fds.append(RuleFieldDescriptor('X:m', 5, 0, DI.BIDIRECTIONAL, MatchMapping(fw), MO.MATCH_MAPPING, CDA.MAPPING_SENT))
+                fds.append(RuleFieldDescriptor('X:m', 5, 0, DI.BIDIRECTIONAL, mkmap(fw), MO.MATCH_MAPPING, CDA.MAPPING_SENT))
                 rule = RuleDescriptor(id=mk(randbits(rnd, rnd.randint(1, 9))), field_descriptors=fds)
                 for pl in ('', '0', '1', '0000000'):
                     s = bits_of(rule.id) + pre + i + pl
